@@ -24,7 +24,7 @@ ASSUMPTIONS = [
 ]
 BUDGET = {
     "quick": {"examples": 500, "workers": 8, "time_cap": 70},
-    "thorough": {"examples": 20000, "workers": 14, "time_cap": 1500},
+    "thorough": {"examples": 20000, "workers": 14, "time_cap": 900},
 }
 GRID_DESC = {
     "quick": "single file sizes k*B+d, k*P+d (k<=6, d in -1,0,1) x P in 2^14,2^15; two-file 8x8 boundary sizes x P=2^15",
